@@ -2,7 +2,7 @@
 the bounded enumerators, the level, and the clauses that are NOT decided."""
 PROPS = {
     'C19': dict(
-        modules=['specs.version', 'contracts.version', 'lemmas.version'],
+        modules=['specs.version', 'contracts.version', 'lemmas.version', 'contracts.regexes'],
         bounded=['bounded.version'],
         level='proof',
         design_ref='DESIGN.md §4 C19',
@@ -13,7 +13,7 @@ PROPS = {
     ),
 }
 PROPS['C20'] = dict(
-    modules=['specs.version', 'specs.cargo', 'contracts.cargo', 'lemmas.cargo'],
+    modules=['specs.version', 'specs.cargo', 'contracts.cargo', 'lemmas.cargo', 'contracts.regexes'],
     bounded=['bounded.cargo'],
     level='proof',
     design_ref='DESIGN.md §4 C20',
@@ -63,7 +63,7 @@ PROPS['C07'] = dict(
     not_decided=['machine-file parsing, optinterpreter and Environment plumbing', 'cross-source interaction of buildtype with explicit debug/optimization (not stated)'],
 )
 PROPS['C14'] = dict(
-    modules=['specs.conf', 'contracts.conf'],
+    modules=['specs.conf', 'contracts.conf', 'contracts.regexes'],
     bounded=['bounded.conf'],
     level='other',
     design_ref='DESIGN.md §4 C14',
@@ -85,7 +85,7 @@ PROPS['C02'] = dict(
     not_decided=['parser token accounting (every consumed token is in the tree) as a proof', 'printer visitors'],
 )
 PROPS['C03'] = dict(
-    modules=['specs.quoting', 'contracts.quoting'],
+    modules=['specs.quoting', 'contracts.quoting', 'contracts.regexes'],
     bounded=['bounded.quoting'],
     level='other',
     design_ref='DESIGN.md §4 C03',
